@@ -108,6 +108,9 @@ class Ctx:
     # ---- findings protocol
     def violation(self, key, what, replay=None):
         """key: specific fingerprint 'Cxx:...'; matched against known_findings.json (open entries only)."""
+        if key.startswith("DRIFT:"):
+            self.drift(key, what, replay)
+            return False
         if self.only_key is not None and key != self.only_key:
             return False
         for f in self.findings:
@@ -127,6 +130,17 @@ class Ctx:
                        "case": replay}, fh, indent=1, default=str)
         self.violations.append({"key": key, "what": what, "replay": rp})
         return True
+
+    def drift(self, key, what, detail=None):
+        """two-stage rule (DESIGN 2.2): a recorded execution that is not a behaviour of the specification, for a property that
+        only constrains RESULTS, is a candidate, not a violation: it is reported (SPEC-DRIFT line, evidence) and the dense
+        oracle that runs on the same case decides.  Never changes the exit status."""
+        if key.startswith("DRIFT:"):
+            key = key[6:]
+        lst = self.notes.setdefault("spec_drift", [])
+        if not any(d["key"] == key for d in lst):
+            lst.append({"key": key, "what": what, "example": detail})
+            print(f"SPEC-DRIFT property={self.pid} {key} :: {what[:300]} (not an alarm: the result oracle of the same case decides)")
 
     def finalize(self):
         self.cov["distinct_nontrivial"] = len(self._distinct)
